@@ -11,7 +11,9 @@
 pub struct Hyphenator {
     // The data u8s have the following meaning.
     // The bottom four bits (u8 % 16) contain the op code. For 0..=9, this says
-    // emit this score. 10 and above means: terminate.
+    // emit this score. 10 and 11 mean: terminate. 12 and 13 are the scores used by
+    // hyphenation exceptions (no hyphen/hyphen); they are bigger than any pattern score
+    // so that an exception always wins.
     // The top four bits (u8 / 16) is the number of zero scores to emit before
     // performing the operation above.
     data: Vec<u8>,
@@ -150,20 +152,14 @@ impl Hyphenator {
         let mut vertex = self.patterns.root();
         vertex = self.patterns.next(vertex, trie::Edge::StartOfWord).0;
         let data_start = self.data.len();
-        let mut word = String::new();
-        let mut indices = vec![0];
-        self.data.push(6);
+        self.data.push(EXCEPTION_NO_HYPHEN);
         for c in hyphenated_word.chars() {
             if c == '-' {
-                indices.pop();
-                indices.push(7);
                 self.data.pop();
-                self.data.push(7);
+                self.data.push(EXCEPTION_HYPHEN);
             } else {
                 vertex = self.patterns.next(vertex, trie::Edge::Char(c)).0;
-                word.push(c);
-                indices.push(6);
-                self.data.push(6);
+                self.data.push(EXCEPTION_NO_HYPHEN);
             }
         }
         self.data.push(10);
@@ -204,14 +200,14 @@ impl Hyphenator {
                 k += (num_zeros) as usize;
                 let op = op % 16;
                 match op {
-                    score @ ..10 => {
+                    10 | 11 => {
+                        break;
+                    }
+                    score => {
                         if scores[p.offset + k] < score {
                             scores[p.offset + k] = score;
                         }
                         k += 1;
-                    }
-                    _ => {
-                        break;
                     }
                 }
             }
@@ -241,11 +237,11 @@ impl Hyphenator {
                 scores.resize(scores.len() + num_zeros as usize, 0_u8);
                 let op = op % 16;
                 match op {
-                    score @ ..10 => {
-                        scores.push(score);
-                    }
-                    _ => {
+                    10 | 11 => {
                         break op == 11;
+                    }
+                    score => {
+                        scores.push(score);
                     }
                 }
             };
@@ -328,6 +324,12 @@ impl Hyphenator {
         }
     }
 }
+
+// Scores stored for hyphenation exceptions. They must be bigger than the biggest pattern
+// score (9) so that an exception is never overridden by a pattern, and must not be one
+// of the terminators 10 and 11. The odd one allows a hyphen.
+const EXCEPTION_NO_HYPHEN: u8 = 12;
+const EXCEPTION_HYPHEN: u8 = 13;
 
 struct Pattern<'a> {
     start_of_word: bool,
